@@ -25,6 +25,8 @@ inductive Kind (c c' : Cfg) (tid : Queue.Tid) (t t' : Thread) : Prop where
   | plain (hths : c'.ths = c.ths.set tid t') (hgen : c'.sh.generator = c.sh.generator)
       (henq : c'.sh.enqThread = c.sh.enqThread) (hlen : c'.sh.qs.length = c.sh.qs.length)
       (h1 : t.pc ≠ .iiSpawn) (h2 : t'.pc ≠ .iiSpawn)
+      (hstop : t'.pc = .lkStop ∨ t'.pc = .lkJoin →
+        ((t.pc = .lkStop ∨ t.pc = .lkJoin) ∧ t'.g = t.g) ∨ (t.pc = .lkAcq ∧ c.sh.generator = some t'.g))
   /-- `_init_iterator` installs a fresh queue (only a healthy `init_generator`) -/
   | install (hths : c'.ths = c.ths.set tid t') (hgen : c'.sh.generator = some t'.g)
       (henq : c'.sh.enqThread = c.sh.enqThread) (hlen : c'.sh.qs.length = c.sh.qs.length + 1)
@@ -35,6 +37,7 @@ inductive Kind (c c' : Cfg) (tid : Queue.Tid) (t t' : Thread) : Prop where
   | spawn (p : Thread) (hths : c'.ths = c.ths.set tid t' ++ [p]) (hgen : c'.sh.generator = c.sh.generator)
       (henq : c'.sh.enqThread = some c.ths.length) (hlen : c'.sh.qs.length = c.sh.qs.length)
       (h1 : t.pc = .iiSpawn) (h2 : t'.pc = .lkRel) (hp : p.prog = .producer t.g) (hpc : p.pc = .start)
+      (hqt : p.qt.pc = .sAcq)
 
 /-- the effect of one step on the generator lock -/
 structure LockEff (c c' : Cfg) (tid : Queue.Tid) (t t' : Thread) : Prop where
@@ -47,7 +50,7 @@ structure LockEff (c c' : Cfg) (tid : Queue.Tid) (t t' : Thread) : Prop where
 
 /-- closes `∃ t', Kind .. ∧ LockEff ..` for a step whose result is syntactically known -/
 macro "eff_plain" : tactic => `(tactic|
-  (refine ⟨_, Kind.plain rfl rfl rfl ?_ ?_ ?_, ⟨?_, ?_, ?_, ?_, ?_⟩⟩ <;> (simp [holdsGen, setTh, *]; done)))
+  (refine ⟨_, Kind.plain rfl rfl rfl ?_ ?_ ?_ ?_, ⟨?_, ?_, ?_, ?_, ?_⟩⟩ <;> (simp [holdsGen, setTh, *]; done)))
 macro "eff_install" : tactic => `(tactic|
   (refine ⟨_, Kind.install rfl rfl rfl ?_ ?_ ?_ ?_ rfl ?_, ⟨?_, ?_, ?_, ?_, ?_⟩⟩ <;> (simp [holdsGen, setTh, *]; done)))
 set_option hygiene false in
@@ -69,7 +72,7 @@ theorem step_eff {c c' : Cfg} {tid : Queue.Tid} {lbl : String} {t : Thread}
     | some g =>
       simp only [hg, Option.some.injEq, Prod.mk.injEq] at h
       obtain ⟨-, rfl⟩ := h
-      exact ⟨_, .spawn _ rfl rfl rfl rfl hpc rfl rfl rfl,
+      exact ⟨_, .spawn _ rfl rfl rfl rfl hpc rfl rfl rfl rfl,
         ⟨rfl, by simp [holdsGen, hpc], by intros; rfl, by simp [holdsGen], by simp [holdsGen, hpc]⟩⟩
   case lkStop =>
     cases hq : c.sh.qs[t.g]? with
@@ -138,7 +141,7 @@ theorem Kind.get_inv {c c' : Cfg} {tid j : Queue.Tid} {t t' u : Thread} (ht : c.
     (k : Kind c c' tid t t') (hu : c'.ths[j]? = some u) :
     (j = tid ∧ u = t') ∨ (j ≠ tid ∧ c.ths[j]? = some u) ∨
     (j = c.ths.length ∧ u.prog = .producer t.g ∧ u.pc = .start ∧ t.pc = .iiSpawn ∧
-      c'.sh.enqThread = some c.ths.length) := by
+      c'.sh.enqThread = some c.ths.length ∧ u.qt.pc = .sAcq) := by
   have hlt : tid < c.ths.length := by
     rcases List.getElem?_eq_some_iff.mp ht with ⟨h, _⟩; exact h
   by_cases hj : j = tid
@@ -150,7 +153,7 @@ theorem Kind.get_inv {c c' : Cfg} {tid j : Queue.Tid} {t t' u : Thread} (ht : c.
       rw [hths, List.getElem?_set_ne (Ne.symm hj)] at hu; exact Or.inr (Or.inl ⟨hj, hu⟩)
     | install hths =>
       rw [hths, List.getElem?_set_ne (Ne.symm hj)] at hu; exact Or.inr (Or.inl ⟨hj, hu⟩)
-    | spawn p hths hgen henq hlen h1 h2 hp hpc =>
+    | spawn p hths hgen henq hlen h1 h2 hp hpc hqt =>
       rw [hths] at hu
       by_cases hjl : j < c.ths.length
       · rw [List.getElem?_append_left (by simpa using hjl), List.getElem?_set_ne (Ne.symm hj)] at hu
@@ -162,7 +165,7 @@ theorem Kind.get_inv {c c' : Cfg} {tid j : Queue.Tid} {t t' u : Thread} (ht : c.
           rw [hd] at hu
           simp only [List.getElem?_cons_zero, Option.some.injEq] at hu
           subst hu
-          exact Or.inr (Or.inr ⟨Nat.le_antisymm (Nat.sub_eq_zero_iff_le.mp hd) (Nat.le_of_not_lt hjl), hp, hpc, h1, henq⟩)
+          exact Or.inr (Or.inr ⟨Nat.le_antisymm (Nat.sub_eq_zero_iff_le.mp hd) (Nat.le_of_not_lt hjl), hp, hpc, h1, henq, hqt⟩)
         | succ n => rw [hd] at hu; simp at hu
 
 theorem step_some_thread {c c' : Cfg} {tid : Queue.Tid} {lbl : String} (h : step c tid = some (lbl, c')) :
@@ -254,10 +257,10 @@ theorem iinv_step {c c' : Cfg} {tid : Queue.Tid} {lbl : String} (hI : IInv c)
     rw [hI.lock _ t ht h0] at a
     exact hj (Option.some.inj a).symm
   cases hk with
-  | plain hths hgen henq hlen h1 h2 =>
+  | plain hths hgen henq hlen h1 h2 hstop =>
     refine ⟨hlock, howner, ?_, ?_, ?_, ?_, ?_⟩
     · intro j u hu hpc
-      rcases (Kind.plain hths hgen henq hlen h1 h2).get_inv ht hu with ⟨rfl, rfl⟩ | ⟨hj, hu0⟩ | ⟨-, -, -, h3, -⟩
+      rcases (Kind.plain hths hgen henq hlen h1 h2 hstop).get_inv ht hu with ⟨rfl, rfl⟩ | ⟨hj, hu0⟩ | ⟨-, -, -, h3, -⟩
       · exact absurd hpc h2
       · rw [hgen]; exact hI.spawnG j u hu0 hpc
       · exact absurd h3 h1
@@ -269,10 +272,10 @@ theorem iinv_step {c c' : Cfg} {tid : Queue.Tid} {lbl : String} (hI : IInv c)
         · subst hj
           rw [ht] at hu; obtain rfl := Option.some.inj hu
           exact ⟨t', by rw [henq]; exact he, hself, by rw [hl.prog]; exact hp⟩
-        · exact ⟨u, by rw [henq]; exact he, (Kind.plain hths hgen henq hlen h1 h2).get_other hj hu, hp⟩
+        · exact ⟨u, by rw [henq]; exact he, (Kind.plain hths hgen henq hlen h1 h2 hstop).get_other hj hu, hp⟩
       · have hj : j ≠ tid := by
           rintro rfl; rw [ht] at hu; rw [← Option.some.inj hu] at hpc; exact h1 hpc
-        exact Or.inr ⟨j, u, (Kind.plain hths hgen henq hlen h1 h2).get_other hj hu, hpc, hgk⟩
+        exact Or.inr ⟨j, u, (Kind.plain hths hgen henq hlen h1 h2 hstop).get_other hj hu, hpc, hgk⟩
     · intro tp he
       rw [henq] at he
       obtain ⟨u, k, hu, hp, hor⟩ := hI.enq tp he
@@ -281,15 +284,15 @@ theorem iinv_step {c c' : Cfg} {tid : Queue.Tid} {lbl : String} (hI : IInv c)
         · exact Or.inl (by rw [hgen]; exact hg)
         · have hj : j ≠ tid := by
             rintro rfl; rw [ht] at hv; rw [← Option.some.inj hv] at hpc; exact h1 hpc
-          exact Or.inr ⟨j, v, (Kind.plain hths hgen henq hlen h1 h2).get_other hj hv, hpc⟩
+          exact Or.inr ⟨j, v, (Kind.plain hths hgen henq hlen h1 h2 hstop).get_other hj hv, hpc⟩
       by_cases hj : tp = tid
       · subst hj
         rw [ht] at hu; obtain rfl := Option.some.inj hu
         exact ⟨t', k, hself, by rw [hl.prog]; exact hp, hor'⟩
-      · exact ⟨u, k, (Kind.plain hths hgen henq hlen h1 h2).get_other hj hu, hp, hor'⟩
+      · exact ⟨u, k, (Kind.plain hths hgen henq hlen h1 h2 hstop).get_other hj hu, hp, hor'⟩
     · intro j u k hu hp
       rw [hlen]
-      rcases (Kind.plain hths hgen henq hlen h1 h2).get_inv ht hu with ⟨rfl, rfl⟩ | ⟨hj, hu0⟩ | ⟨-, -, -, h3, -⟩
+      rcases (Kind.plain hths hgen henq hlen h1 h2 hstop).get_inv ht hu with ⟨rfl, rfl⟩ | ⟨hj, hu0⟩ | ⟨-, -, -, h3, -⟩
       · exact hI.prodG _ t k ht (by rw [← hl.prog]; exact hp)
       · exact hI.prodG j u k hu0 hp
       · exact absurd h3 h1
@@ -330,8 +333,8 @@ theorem iinv_step {c c' : Cfg} {tid : Queue.Tid} {lbl : String} (hI : IInv c)
     · intro k hgk
       rw [hgen] at hgk
       rw [hlen, ← Option.some.inj hgk, hg]; exact Nat.lt_succ_self _
-  | spawn p hths hgen henq hlen h1 h2 hp hpc =>
-    have hK : Kind c c' tid t t' := .spawn p hths hgen henq hlen h1 h2 hp hpc
+  | spawn p hths hgen henq hlen h1 h2 hp hpc hqt =>
+    have hK : Kind c c' tid t t' := .spawn p hths hgen henq hlen h1 h2 hp hpc hqt
     have h0 : holdsGen t.pc = true := by rw [h1]; rfl
     have hgt := (hI.spawnG tid t ht h1).1
     have hnew : c'.ths[c.ths.length]? = some p := by
@@ -366,5 +369,133 @@ theorem iinv_reachable {p : Nat} {progs : List Prog} {c : Cfg} (hreq : Requests 
   induction h with
   | init => exact iinv_init p progs hreq
   | step _ hs ih => exact iinv_step ih hs
+
+/-! ### one prefetch thread per queue; a locked stop works on the current generator -/
+
+structure UInv (c : Cfg) : Prop where
+  /-- at most one prefetch thread per queue -/
+  uniq : ∀ (i j : Queue.Tid) (ti tj : Thread) (k : Nat), c.ths[i]? = some ti → c.ths[j]? = some tj →
+    ti.prog = .producer k → tj.prog = .producer k → i = j
+  /-- the queue installed by the request at `thread_start` has no prefetch thread yet -/
+  fresh : ∀ (tid : Queue.Tid) (t : Thread), c.ths[tid]? = some t → t.pc = .iiSpawn →
+    ∀ (j : Queue.Tid) (u : Thread), c.ths[j]? = some u → u.prog ≠ .producer t.g
+  /-- a locked stop (its `maybe_stop`, its join) works on the queue that is `self._generator` -/
+  stopG : ∀ (tid : Queue.Tid) (t : Thread), c.ths[tid]? = some t → t.pc = .lkStop ∨ t.pc = .lkJoin →
+    c.sh.generator = some t.g
+
+theorem uinv_init (p : Nat) (progs : List Prog) (hreq : Requests progs) : UInv (init p progs) := by
+  have hstart : ∀ (tid : Queue.Tid) (t : Thread), (init p progs).ths[tid]? = some t →
+      t.pc = .start ∧ ∀ k, t.prog ≠ .producer k := by
+    intro tid t ht
+    cases tid with
+    | zero =>
+      simp only [init, List.getElem?_cons_zero, Option.some.injEq] at ht; subst ht
+      exact ⟨rfl, by intro k hk; cases hk⟩
+    | succ n =>
+      simp only [init, List.getElem?_cons_succ, List.getElem?_map, Option.map_eq_some_iff] at ht
+      obtain ⟨p0, hp0, rfl⟩ := ht
+      exact ⟨rfl, hreq p0 (List.mem_of_getElem? hp0)⟩
+  refine ⟨?_, ?_, ?_⟩
+  · intro i j ti tj k hi _ hpi; exact absurd hpi ((hstart i ti hi).2 k)
+  · intro tid t ht hpc; rw [(hstart tid t ht).1] at hpc; cases hpc
+  · intro tid t ht hpc; rw [(hstart tid t ht).1] at hpc; rcases hpc with h | h <;> cases h
+
+theorem uinv_step {c c' : Cfg} {tid : Queue.Tid} {lbl : String} (hI : IInv c) (hU : UInv c)
+    (h : step c tid = some (lbl, c')) : UInv c' := by
+  obtain ⟨t, ht⟩ := step_some_thread h
+  obtain ⟨t', hk, hl⟩ := step_eff ht h
+  have hself := hk.get_self ht
+  have hI' := iinv_step hI h
+  -- while `tid` is inside the locked region nobody else is
+  have hexcl : ∀ (j : Queue.Tid) (u : Thread), j ≠ tid → c.ths[j]? = some u → holdsGen u.pc = true →
+      holdsGen t.pc = true → False := by
+    intro j u hj hu hh h0
+    have a := hI.lock j u hu hh
+    rw [hI.lock _ t ht h0] at a
+    exact hj (Option.some.inj a).symm
+  have hexcl' : ∀ (j : Queue.Tid) (u : Thread), j ≠ tid → c'.ths[j]? = some u → holdsGen u.pc = true →
+      holdsGen t'.pc = true → False := by
+    intro j u hj hu hh h0
+    have a := hI'.lock j u hu hh
+    rw [hI'.lock _ t' hself h0] at a
+    exact hj (Option.some.inj a).symm
+  -- programs of old threads
+  have hprog_inv : ∀ (j : Queue.Tid) (u : Thread), c'.ths[j]? = some u →
+      (∃ u0, c.ths[j]? = some u0 ∧ u0.prog = u.prog) ∨
+      (j = c.ths.length ∧ u.prog = .producer t.g ∧ t.pc = .iiSpawn) := by
+    intro j u hu
+    rcases hk.get_inv ht hu with ⟨rfl, rfl⟩ | ⟨hj, hu0⟩ | ⟨hj, hp, -, h3, -⟩
+    · exact Or.inl ⟨t, ht, hl.prog.symm⟩
+    · exact Or.inl ⟨u, hu0, rfl⟩
+    · exact Or.inr ⟨hj, hp, h3⟩
+  have hlt : ∀ (j : Queue.Tid) (u : Thread), c.ths[j]? = some u → j < c.ths.length := by
+    intro j u hu; rcases List.getElem?_eq_some_iff.mp hu with ⟨h, _⟩; exact h
+  refine ⟨?_, ?_, ?_⟩
+  · intro i j ti tj k hi hj hpi hpj
+    rcases hprog_inv i ti hi with ⟨ui, hui, hpui⟩ | ⟨hil, hpi', hsp⟩ <;>
+      rcases hprog_inv j tj hj with ⟨uj, huj, hpuj⟩ | ⟨hjl, hpj', hsp'⟩
+    · exact hU.uniq i j ui uj k hui huj (by rw [hpui]; exact hpi) (by rw [hpuj]; exact hpj)
+    · rw [hpj] at hpj'; obtain rfl := Prog.producer.inj hpj'
+      exact absurd (by rw [hpui]; exact hpi) (hU.fresh tid t ht hsp' i ui hui)
+    · rw [hpi] at hpi'; obtain rfl := Prog.producer.inj hpi'
+      exact absurd (by rw [hpuj]; exact hpj) (hU.fresh tid t ht hsp j uj huj)
+    · rw [hil, hjl]
+  · intro a ta ha hpc j u hu
+    have hha : holdsGen ta.pc = true := by rw [hpc]; rfl
+    -- the thread at `iiSpawn` in `c'` is the stepping thread right after its install, or an old one
+    rcases hk.get_inv ht ha with ⟨rfl, rfl⟩ | ⟨haj, ha0⟩ | ⟨-, -, h3, -⟩
+    · cases hk with
+      | plain _ _ _ _ _ h2 _ => exact absurd hpc h2
+      | spawn _ _ _ _ _ _ h2 => rw [h2] at hpc; cases hpc
+      | install hths hgen henq hlen hfresh hg h1 h2 hprog =>
+        rw [hg]
+        rcases hprog_inv j u hu with ⟨u0, hu0, hpu0⟩ | ⟨-, -, hsp⟩
+        · intro hp
+          have := hI.prodG j u0 c.sh.qs.length hu0 (by rw [hpu0]; exact hp)
+          exact Nat.lt_irrefl _ this
+        · exact absurd hsp h1
+    · -- an old thread at `iiSpawn` other than the stepping one: the stepping thread is outside the region
+      have hout : holdsGen t.pc = false := by
+        cases h0 : holdsGen t.pc with
+        | false => rfl
+        | true => exact (hexcl a ta haj ha0 hha h0).elim
+      have hout' : holdsGen t'.pc = false := by
+        cases h0 : holdsGen t'.pc with
+        | false => rfl
+        | true => exact (hexcl' a ta haj ha hha h0).elim
+      rcases hprog_inv j u hu with ⟨u0, hu0, hpu0⟩ | ⟨-, -, hsp⟩
+      · rw [← hpu0]; exact hU.fresh a ta ha0 hpc j u0 hu0
+      · rw [hsp] at hout; cases hout
+    · rw [h3] at hpc; cases hpc
+  · intro a ta ha hpc
+    have hha : holdsGen ta.pc = true := by rcases hpc with h | h <;> rw [h] <;> rfl
+    rcases hk.get_inv ht ha with ⟨rfl, rfl⟩ | ⟨haj, ha0⟩ | ⟨-, -, h3, -⟩
+    · cases hk with
+      | plain hths hgen henq hlen h1 h2 hstop =>
+        rw [hgen]
+        rcases hstop hpc with ⟨hp0, hg0⟩ | ⟨-, hg0⟩
+        · rw [hg0]; exact hU.stopG _ t ht hp0
+        · exact hg0
+      | spawn _ _ _ _ _ _ h2 => rw [h2] at hpc; rcases hpc with h | h <;> cases h
+      | install _ _ _ _ _ _ _ h2 => rw [h2] at hpc; rcases hpc with h | h <;> cases h
+    · have hout : holdsGen t.pc = false := by
+        cases h0 : holdsGen t.pc with
+        | false => rfl
+        | true => exact (hexcl a ta haj ha0 hha h0).elim
+      have hout' : holdsGen t'.pc = false := by
+        cases h0 : holdsGen t'.pc with
+        | false => rfl
+        | true => exact (hexcl' a ta haj ha hha h0).elim
+      cases hk with
+      | plain hths hgen _ _ _ _ _ => rw [hgen]; exact hU.stopG a ta ha0 hpc
+      | spawn _ _ _ _ _ h1 => rw [h1] at hout; cases hout
+      | install _ _ _ _ _ _ _ h2 => rw [h2] at hout'; cases hout'
+    · rw [h3] at hpc; rcases hpc with h | h <;> cases h
+
+theorem uinv_reachable {p : Nat} {progs : List Prog} {c : Cfg} (hreq : Requests progs)
+    (h : Reachable (init p progs) c) : UInv c := by
+  induction h with
+  | init => exact uinv_init p progs hreq
+  | step hr hs ih => exact uinv_step (iinv_reachable hreq hr) ih hs
 
 end MlModel.Prefetch
